@@ -645,7 +645,7 @@ def r20_4(ctx: Ctx, R: Resolver):
         ok &= o
         b = bind_args(c3[0], emi)
         ps = [p for p in emi.params if p != "self"]
-        ok &= norm(b.get(ps[0])) == "self.start" and norm(b.get(ps[1])) == "self.end"
+        ok &= norm(b.get(ps[0])).replace("self._start", "self.start") == "self.start" and norm(b.get(ps[1])).replace("self._end", "self.end") == "self.end"
         chain.append(("ExchangeMap(reference, target)", (norm(b.get(ps[0])), norm(b.get(ps[1])))))
     else:
         ok = False
